@@ -24,6 +24,9 @@ impl Version {
     /// This function never returns `Ok(IpVersion::Unspecified)`; instead,
     /// unknown versions result in `Err(Error)`.
     pub const fn of_packet(data: &[u8]) -> Result<Version> {
+        if data.is_empty() {
+            return Err(Error);
+        }
         match data[0] >> 4 {
             #[cfg(feature = "proto-ipv4")]
             4 => Ok(Version::Ipv4),
